@@ -514,9 +514,9 @@ Proof.
   split; [exact S1|]. rewrite S2. exact R1.
 Qed.
 
-Lemma gossip_ok cl a b : cl_ok cl → cl_ok (gossip cl a b).
+Lemma gossip_ok f cl a b : cl_ok cl → cl_ok (gossip_with f cl a b).
 Proof.
-  intros H. unfold gossip. apply (cl_ok_nodes (setn cl b (set_d (getn cl b) (fold_left merge_event (skipn (deliv_count cl a b) (n_out (getn cl a))) (n_d (getn cl b)))))); [done|].
+  intros H. unfold gossip_with. apply (cl_ok_nodes (setn cl b (set_d (getn cl b) (fold_left merge_event (f (skipn (deliv_count cl a b) (n_out (getn cl a)))) (n_d (getn cl b)))))); [done|].
   apply setn_ok; [done|]. apply (node_ok_ext (getn cl b)); try done. by apply getn_ok.
 Qed.
 Lemma peer_leave_ok cl o d clk : cl_ok cl → cl_ok (peer_leave cl o d clk).1.
@@ -557,6 +557,7 @@ Proof.
   - apply with_session_ok; [done|]. done.
   - by apply (cl_ok_nodes cl).
   - done.
+  - by apply gossip_ok.
 Qed.
 Theorem step_ok seen cl o : cl_ok cl → cl_ok (step seen cl o).1.
 Proof. intros H. unfold step. cbn [fst]. apply drain_all_ok. by apply step_raw_ok. Qed.
